@@ -337,6 +337,7 @@ fn execute_inner(t: &Trace, stats: &mut Stats, record: bool) -> Outcome {
 
     let stride = check_stride(t.ops.len());
     let mut since_check = 0usize;
+    let mut calls_seen = 0usize;
     let twin_console = SimConsole::new(vec![], false);
     let twin_h = twin_console.clone();
     let mut twin = if t.param("twin_stream") == Some(1) { Some(wincon_port::WinconStream::new(twin_console)) } else { None };
@@ -544,7 +545,10 @@ fn execute_inner(t: &Trace, stats: &mut Stats, record: bool) -> Outcome {
         // delivered text+colours == expected for the prefix reported consumed (strict), and always
         // a prefix of the expectation for the whole input
         since_check += 1;
-        let due = since_check >= stride || !matches!(r, OpResult::Count(_) | OpResult::Done) || i >= ops.len();
+        calls_seen += 1;
+        // (the O(input) comparison gets rarer as a history gets longer than planned: a stream that
+        // reports small legal counts turns one drain call into thousands; always at the very end)
+        let due = since_check >= stride.max(calls_seen / 200) || !matches!(r, OpResult::Count(_) | OpResult::Done) || (i >= ops.len() && c >= n);
         if !due {
             continue;
         }
